@@ -119,7 +119,28 @@ func newJail() (*jail, error) {
 		return nil, err
 	}
 	j := &jail{scratch: s, root: filepath.Join(s, "j1", "j2", "jail")}
-	return j, os.MkdirAll(j.root, 0o755)
+	if err := os.MkdirAll(j.root, 0o755); err != nil {
+		return j, err
+	}
+	// the directories ABOVE the jail get an unusual mode: a chmod that walks up past the target shows in ancestors()
+	for _, d := range []string{j.root, filepath.Dir(j.root), filepath.Dir(filepath.Dir(j.root))} {
+		os.Chmod(d, 0o750)
+	}
+	return j, nil
+}
+
+// ancestors: the modes of the directories above the jail (nothing a call does may change them)
+func (j *jail) ancestors() string {
+	var out []string
+	for _, d := range []string{j.scratch, filepath.Join(j.scratch, "j1"), filepath.Join(j.scratch, "j1", "j2"), j.root} {
+		fi, err := os.Stat(d)
+		if err != nil {
+			out = append(out, "missing")
+		} else {
+			out = append(out, fmt.Sprintf("%o", fi.Mode().Perm()))
+		}
+	}
+	return strings.Join(out, ",")
 }
 
 func (j *jail) close() { os.RemoveAll(j.scratch) }
@@ -341,11 +362,12 @@ type fsReplayRec struct {
 
 // fsOutcome is what one real call did, projected.
 type fsOutcome struct {
-	rp       wproto.Rep
-	before   map[string]string
-	after    map[string]string
-	jailRoot string
-	req      wproto.Req
+	ancBefore, ancAfter string // modes of the directories above the jail
+	rp                  wproto.Rep
+	before              map[string]string
+	after               map[string]string
+	jailRoot            string
+	req                 wproto.Req
 }
 
 // runFsCall materialises `pre`, performs the last call of the history on the real library (in a worker
@@ -374,9 +396,12 @@ func runFsCall(pool *wproto.Pool, s *fsState, c *tok.Conc, massive, alias bool) 
 	} else {
 		rq.Doc = canonItemsDoc(s.Items, c)
 	}
-	o := &fsOutcome{before: j.snapshot(), jailRoot: j.root, req: rq}
+	// the target directory is handed over in one of five spellings of the same path (four of them relative)
+	rq.TargetSpell = []string{"", "slash", "dot", "dslash", "dotin"}[s.N%5]
+	o := &fsOutcome{before: j.snapshot(), jailRoot: j.root, req: rq, ancBefore: j.ancestors()}
 	o.rp = pool.Call(rq, 30*time.Second)
 	o.after = j.snapshot()
+	o.ancAfter = j.ancestors()
 	return o, nil
 }
 
